@@ -23,6 +23,8 @@ def wide_fault_ops(alpha, tier):
             F.append(("update_raise", None, attr, nth, pre, None, "db"))
         F.append(("update_raise", sel, attr, 1, pre, None, "db"))
         F.append(("update_raise", selm, attr, 2, pre, "m", "db"))
+    F.append(("update_raise", None, "tags", -1, None, None, "db"))        # a BaseException (interrupt) instead of an Exception
+    F.append(("update_raise", sel, "fields", -1, "time", None, "db"))
     F.append(("update_raise", None, "tags", 1, "time", None, "h:m"))
     F.append(("update_raise", sel, "fields", 1, None, None, "h:m"))
     for attr, pre in (("time", None), ("measurement", None), ("tags", None), ("fields", None), ("fields", "tags"), ("tags", "time")):
@@ -117,7 +119,7 @@ class C11(E1Check):
         if k == "bad_insert_multiple":
             return f"pos={op[2]}"
         if k == "update_raise":
-            return f"attr={op[2]}|nth={'1' if op[3] == 1 else '>1'}|pre={op[4]}|{'all' if op[1] is None else 'query'}"
+            return f"attr={op[2]}|nth={'interrupt' if op[3] < 0 else ('1' if op[3] == 1 else '>1')}|pre={op[4]}|{'all' if op[1] is None else 'query'}"
         if k == "update_badret":
             return f"attr={op[2]}|pre={op[3]}"
         return op[1]
